@@ -70,7 +70,7 @@ def run(gfapy, gfa, group):
             Q("tn%d" % i, lambda: list(l.tagnames))
             Q("rt%d" % i, lambda: l.record_type)
             Q("ver%d" % i, lambda: l.version)
-            for fn in list(l.positional_fieldnames) + list(l.tagnames) + ["name", "zz", "LN", "length"]:
+            for fn in list(l.positional_fieldnames) + list(l.tagnames) + ["name", "zz", "LN", "length", "xx", "yy"]:
                 Q("g%d.%s" % (i, fn), lambda: l.get(fn))
                 Q("tg%d.%s" % (i, fn), lambda: l.try_get(fn))
                 Q("fs%d.%s" % (i, fn), lambda: l.field_to_s(fn))
